@@ -310,13 +310,14 @@ theorem gsc_relisting_fails_at :
       [0, 5/6, 1/2, 3/4, 5/6, 0, 7/12, 2/3, 1/2, 7/12, 0, 5/12, 3/4, 2/3, 5/12, 0] := by
   decide +kernel
 
-/-- UPGMA (`cluster_engine`, mode eslUPGMA): every pass joins a pair at minimum distance among the active rows, at height
-    half that distance (ties: the first minimum in row-major order — the source of the two GSC findings) -/
-theorem upgma_joins_minimum (n : Nat) (st : UState ℚ) (step : Nat) (hN : 2 ≤ n - step) :
-    stepI n st step < stepJ n st step ∧ stepJ n st step < n - step ∧
-    (∀ r c, r < c → c < n - step → mget st.D n (stepI n st step) (stepJ n st step) ≤ mget st.D n r c) ∧
-    stepH n st step = mget st.D n (stepI n st step) (stepJ n st step) / 2 :=
-  upgmaStep_joins_minimum n st step hN
+/-- UPGMA (`cluster_engine`, mode eslUPGMA): every pass joins a pair of clusters at minimum distance among the active ones,
+    at height half that distance (ties: the first minimum in row-major order of the current positions — the source of
+    the two GSC findings) -/
+theorem upgma_joins_minimum (st : KState ℚ) (hN : 2 ≤ st.act.size) :
+    kPosI st < kPosJ st ∧ kPosJ st < st.act.size ∧
+    (∀ r c, r < c → c < st.act.size → kdist st.rows (kI st) (kJ st) ≤ kdist st.rows (st.act.getD r 0) (st.act.getD c 0)) ∧
+    kH st = kdist st.rows (kI st) (kJ st) / 2 :=
+  kstep_joins_minimum st hN
 
 /-- L0 bridge for thresholds equal to an attained identity: with ANY monotone rounding `fl` of the quotient whose error
     on [0,1] is at most ε, the test `fl(p/q) ≤ fl(nid/n)` (what `pid >= maxid` computes when `maxid` is the rounded
